@@ -47,13 +47,36 @@ class Content:
         self.xml_ok = self.pil = self.woff = self.woff_ok = self.font_ok = None
 
     def sx(self):
-        pil = 'none' if self.pil is None else [enc(self.pil[0]), enc(self.pil[1]), self.pil[2], self.pil[3]]
+        pil = 'none' if self.pil is None else pil_sx(self.pil)
         return [self.id, self.xml_ok, pil, self.woff, self.woff_ok, self.font_ok]
 
     @property
     def image_loads(self):
-        """Does the model's decision tree give an image for this content under a neutral MIME type?"""
-        return self.pil is not None or self.xml_ok
+        """Does the model's decision tree give an image for this content under a neutral MIME type?  (A JPEG is never
+        written as PNG; everything else Pillow opens must be writable as PNG when it has to be re-encoded — which is
+        always the case for the non-PNG formats.)"""
+        if self.pil is not None:
+            return self.pil[4] or self.pil[0] in ('JPEG', 'MPO')
+        return self.xml_ok
+
+
+def pil_sx(pil):
+    """Wire form of the model's `Pil`: (format, mode, has exif, has transparency, writable as PNG)."""
+    return [enc(pil[0]), enc(pil[1]), pil[2], pil[3], pil[4]]
+
+
+def png_writable(image):
+    """Does `save(format='PNG')` accept the image after the mode normalisation of RasterImage.__init__?  (Pillow opens
+    images in modes it cannot write as PNG: CMYK or float TIFF, palette + alpha.)"""
+    try:
+        if 'transparency' in image.info:
+            image = image.convert('RGBA')
+        elif image.mode in ('1', 'P', 'I'):
+            image = image.convert('RGB')
+        image.save(io.BytesIO(), format='PNG')
+        return True
+    except Exception:  # noqa: BLE001
+        return False
 
 
 def _pil_bytes(fmt, mode='RGB', size=(8, 6), shift=0, **kw):
@@ -73,6 +96,8 @@ def _pil_bytes(fmt, mode='RGB', size=(8, 6), shift=0, **kw):
                 pix[x, y] = (v, 200)
             elif mode == '1':
                 pix[x, y] = v % 2
+            elif mode == 'F':
+                pix[x, y] = v / 7
             else:
                 pix[x, y] = v
     out = io.BytesIO()
@@ -162,6 +187,12 @@ def bank():
         raw['mpo'] = out.getvalue()
     except Exception:
         pass
+    # images that Pillow opens but cannot write as PNG (RasterImage re-encodes every non-JPEG, non-PNG image)
+    for name, mode in (('tiff_cmyk', 'CMYK'), ('tiff_f', 'F')):
+        try:
+            raw[name] = _pil_bytes('TIFF', mode)
+        except Exception:  # noqa: BLE001
+            pass
     raw.update(woffs)
     raw.update(damaged_payloads({'otf': otf, **woffs}, 'font'))
     raw.update(damaged_payloads({'png': png, 'png_rgba': raw['png_rgba'], 'jpeg': jpeg, 'gif': raw['gif'],
@@ -229,7 +260,7 @@ def _oracles(contents):
             c.xml_ok = False
         try:
             image = Image.open(io.BytesIO(c.data))
-            c.pil = (image.format, image.mode, 'exif' in image.info, 'transparency' in image.info)
+            c.pil = (image.format, image.mode, 'exif' in image.info, 'transparency' in image.info, png_writable(image))
         except Exception:
             c.pil = None
         c.woff = c.data[:3] == b'wOF'
